@@ -491,6 +491,11 @@ func sliceDim(val reflect.Value) (typ reflect.Type, dim []int32, count int32, er
 	if err != nil {
 		return nil, nil, 0, err
 	}
+	// a nil slice inside a multi-dimensional array has no length the
+	// dimensions could be built from (its count is -1)
+	if count < 0 {
+		return nil, nil, 0, errUnbalancedSlice
+	}
 	return typ, append([]int32{int32(val.Len())}, dim...), count * int32(val.Len()), nil
 }
 
